@@ -11,6 +11,18 @@ claimed = {
          "For seeded write workloads over all six value types, databases {0,1,3,12}, TCP and embedded callers and the three sync policies: an image at EVERY hit of EVERY failpoint of the write path and after every acknowledgement; from each record-write image the log cut at every byte offset of the record (torn), and from each acknowledgement image the log cut back to its last fsync (power loss); each image is restored and its whole canonical dump must be the recorded prefix state the statement allows; recovered directories are written to again, stopped cleanly and restarted (durable-again histories).",
          "Process death is modelled by a directory image taken inside the failpoint (what another process can read at that instant is what SIGKILL leaves); power loss by cutting the log back to the size at the last fsync; device-level reordering inside a synced region is out of reach. The oracle is self-differential (dump vs dump) and does not depend on any command's semantics. Commands matching listed findings C02-KF1/KF2 are excluded from workloads and replayed by a witness lane.",
          "DESIGN.md §3 C02"),
+ "C10": ("fault_enumeration", "self-differential monitoring over crash images of a snapshot (failpoint images + torn files restored and compared with the dumps at the previous and the new snapshot) plus a system-call-order monitor (strace) on real snapshots",
+         "For seeded histories with 0-3 earlier snapshots and datasets of all value types: an image at every failpoint between the file-system operations of a snapshot, and from each image every file that was being written cut at byte offsets; each is restored with snapshot restore and its whole dump and LASTSAVE must be exactly the previous or the new snapshot, never a failed start-up. Real failing attempts (state file path is a directory) and nothing-new attempts must leave files and LASTSAVE untouched. A child process taking real snapshots is traced with strace: state.bin and the temporary manifest must be fsynced before the rename that makes the manifest visible.",
+         "Process death is modelled by a directory image at the failpoint; the fsync-before-rename order is observed on real system calls; directory-entry durability (no directory fsync) and device reordering are out of reach.",
+         "DESIGN.md §3 C10"),
+ "C14": ("exploration", "lock-step differential monitoring of the hash handlers against an executable reference field-to-value map (replies + whole-store dump after every step)",
+         "Every sequence of depth <=2 (thorough: <=3 on a reduced alphabet) over a 64-command alphabet of the 14 hash commands from 8 initial states (absent, hashes, wrong-typed keys, keys with deadlines), plus seeded random programs with numeric, empty, binary and 10 KB values, negative HRANDFIELD counts, duplicate fields and wrong arity; replies must be allowed by the reference map and the dump must equal it after every step; randomised selections are checked by predicate and followed.",
+         "Trusts the verif-tagged dump, the virtual clock and the reference model (set-valued where statement and docs are silent, e.g. HSET reply count, reply shape of single-field HGET). HSET values matching listed finding C14-KF1 (numeric re-typing) are filtered and replayed by a witness.",
+         "DESIGN.md §3 C14-C17"),
+ "C15": ("exploration", "lock-step differential monitoring of the list handlers against an executable reference sequence (replies + whole-store dump after every step)",
+         "Every sequence of depth <=2 (thorough: <=3 on a reduced alphabet) over a 115-command alphabet of the 13 list commands from 11 initial states (lists with adjacent duplicates, single-element and emptied lists, lists with deadlines, wrong-typed keys), plus broad and dense seeded random programs (indices -8..8, counts, binary and 10 KB elements, clock advances); replies must be allowed by the reference sequence and the dump must equal it after every step.",
+         "Trusts the verif-tagged dump, the virtual clock and the reference model (set-valued where statement and docs are silent: multi-element push order, LMOVE reply, LPUSHX on absent key).",
+         "DESIGN.md §3 C14-C17"),
  "C01": ("exploration", "lock-step differential monitoring of the real handlers against an executable reference typed map (replies + whole-store dump after every step)",
          "Every sequence of depth <=2 (thorough: <=3) over an 80-command alphabet from 8 initial states, plus seeded random programs of 40-80 steps over binary/numeric/huge values, run on fresh instances; each step's strict-parsed reply must be allowed by the reference model and the side-effect-free dump of the store must equal the model state. Held on what was explored, not a proof.",
          "Trusts the verif-tagged dump (reads the store under its own lock), the injected virtual clock, and the reference model in harness/model (set-valued where statement and docs are silent). Inputs matching a listed known finding are filtered out of exploration and replayed by a witness lane.",
